@@ -10,7 +10,7 @@
    - a flat profile: every value is within the noise bound. *)
 From Coq Require Import QArith.Qabs.
 From CNV Require Import Base.Prelude Model.Haar Spec.Haar Spec.HaarNoise Proofs.HaarConv Proofs.HaarFlat
-  Proofs.HaarUnify Proofs.HaarPeaks Proofs.HaarStepLib Proofs.HaarMeans Proofs.HaarStep.
+  Proofs.HaarUnify Proofs.HaarPeaks Proofs.HaarStepLib Proofs.HaarMeans Proofs.HaarStep Proofs.HaarStepW.
 From Coq Require Import Lqa.
 
 Local Open Scope Q_scope.
@@ -987,3 +987,55 @@ Proof.
 Qed.
 
 End NoiseFlat.
+
+(* ---------- a step with bounded noise, arbitrary positive weights (absolute bounds) ---------- *)
+
+Lemma noisy_step_level_w a b t n w sg eps h scale :
+  noise_within eps (step_signal a b t n) sg -> length w = n -> all_pos w -> 0 < scale ->
+  (1 <= h <= Z.of_nat t)%Z -> (Z.of_nat t + h <= Z.of_nat n)%Z ->
+  let T := Z.of_nat t in
+  let N := Z.of_nat n in
+  let conv := haar_conv sg (Some w) h scale in
+  let B := noise_bound_w eps scale in
+  let P := peak_floor_w (Qabs (b - a)) eps scale in
+  (forall k, (0 <= k < N)%Z -> Qabs (qnth conv k - scale * (b - a) * weighted_tent w T h k) <= B) /\
+  P <= Qabs (qnth conv T) /\
+  (forall k, (0 <= k < N)%Z -> (h <= Z.abs (k - T))%Z -> Qabs (qnth conv k) <= B) /\
+  (4 * eps < Qabs (b - a) -> B < P /\
+     forall k, (0 <= k < N)%Z -> (h <= Z.abs (k - T))%Z -> Qabs (qnth conv k) < Qabs (qnth conv T)).
+Proof.
+  intros Hnz Hlw Hp Hs Hh Hn T N conv B P. subst T N.
+  assert (Hstp : length (step_signal a b t n) = n) by (apply step_signal_length; lia).
+  assert (He : 0 <= eps).
+  { apply (noise_eps_nonneg eps _ sg Hnz). intros C. rewrite C in Hstp. cbn in Hstp. lia. }
+  assert (B0 : 0 <= B) by (unfold B, noise_bound_w; nra).
+  assert (H1 : forall k, (0 <= k < Z.of_nat n)%Z -> Qabs (qnth conv k - scale * (b - a) * weighted_tent w (Z.of_nat t) h k) <= B).
+  { intros k Hk. destruct (Z.eq_dec k 0) as [->|K0].
+    - unfold conv. rewrite haar_conv_0.
+      rewrite (wt_zero_left w t n h Hlw Hh 0%Z) by lia.
+      assert (E : 0 - scale * (b - a) * 0 == 0) by ring. rewrite E. exact B0.
+    - pose proof (noise_conv_bound_w eps (step_signal a b t n) sg w h scale k Hnz) as Nb.
+      rewrite Hstp in Nb. specialize (Nb Hlw Hp Hs ltac:(lia) ltac:(lia)).
+      rewrite (step_conv_w w t n h Hlw Hp Hh Hn a b scale k Hk) in Nb. exact Nb. }
+  assert (Hout : forall k, (0 <= k < Z.of_nat n)%Z -> (h <= Z.abs (k - Z.of_nat t))%Z -> Qabs (qnth conv k) <= B).
+  { intros k Hk Hf. pose proof (H1 k Hk) as A.
+    assert (Z0 : weighted_tent w (Z.of_nat t) h k == 0).
+    { destruct (Z_le_gt_dec k (Z.of_nat t)) as [L|L].
+      - apply (wt_zero_left w t n h Hlw Hh k); lia.
+      - apply (wt_zero_right w t n h Hlw Hp Hh Hn k); lia. }
+    rewrite Z0 in A.
+    assert (E : qnth conv k - scale * (b - a) * 0 == qnth conv k) by ring. rewrite E in A. exact A. }
+  assert (Htop : P <= Qabs (qnth conv (Z.of_nat t))).
+  { pose proof (H1 (Z.of_nat t) ltac:(lia)) as A.
+    rewrite (wt_top w t n h Hlw Hp Hh Hn) in A.
+    pose proof (Qabs_triangle_reverse (scale * (b - a) * 1) (qnth conv (Z.of_nat t))) as Tr.
+    rewrite (Qabs_Qminus (scale * (b - a) * 1) (qnth conv (Z.of_nat t))) in Tr.
+    assert (Es : Qabs (scale * (b - a) * 1) == scale * Qabs (b - a)).
+    { assert (E : scale * (b - a) * 1 == scale * (b - a)) by ring. rewrite E, Qabs_Qmult.
+      rewrite (Qabs_pos scale) by lra. reflexivity. }
+    rewrite Es in Tr. unfold P, peak_floor_w. unfold B, noise_bound_w in A. lra. }
+  split; [exact H1|]. split; [exact Htop|]. split; [exact Hout|].
+  intros Hgap.
+  assert (Gp : B < P) by (unfold B, P, noise_bound_w, peak_floor_w; nra).
+  split; [exact Gp|]. intros k Hk Hf. pose proof (Hout k Hk Hf). lra.
+Qed.
